@@ -45,15 +45,21 @@ ExpLabel(j) == [text |-> j.text, l |-> U32(j.l), t |-> U32(j.t), x |-> R(j.xy[1]
                 rep |-> JRepW(j.rep), props |-> JProps(j.aprops)]
 RECURSIVE CatSeq(_)
 CatSeq(ss) == IF ss = <<>> THEN <<>> ELSE Head(ss) \o CatSeq(Tail(ss))
+RPaths(c) == IF "rpaths" \in DOMAIN c THEN c.rpaths ELSE <<>>
 ExpCell(c) == [name |-> c.name, props |-> JProps(c.aprops),
                polys |-> [i \in DOMAIN c.polys |-> ExpPoly(c.polys[i])],
-               paths |-> CatSeq([i \in DOMAIN c.paths |-> ExpPaths(c.paths[i])]),
+               \* flexible paths first, then robust ones (the writer's order); one PATH per element
+               paths |-> CatSeq([i \in DOMAIN c.paths |-> ExpPaths(c.paths[i])])
+                         \o CatSeq([i \in DOMAIN RPaths(c) |-> ExpPaths(RPaths(c)[i])]),
                refs |-> [i \in DOMAIN c.refs |-> ExpRef(c.refs[i])],
                labels |-> [i \in DOMAIN c.labels |-> ExpLabel(c.labels[i])]]
 Expect(p) == [libprops |-> JProps(p.aprops), cells |-> [i \in DOMAIN p.cells |-> ExpCell(p.cells[i])]]
 \* what the generator promises about its libraries; anything else makes the case "unsupported_input"
 Supported(p) == \A i \in DOMAIN p.cells :
-                   /\ p.cells[i].nrobust = 0
+                   /\ p.cells[i].nrobust = Len(RPaths(p.cells[i]))
+                   /\ \A k \in DOMAIN RPaths(p.cells[i]) :
+                         LET j == RPaths(p.cells[i])[k] IN
+                         j.seg /\ j.simple /\ \A e \in DOMAIN j.els : j.els[e].off = 0 /\ j.els[e].pt \in {0, 2, 4}
                    /\ \A k \in DOMAIN p.cells[i].paths :
                          LET j == p.cells[i].paths[k] IN
                          j.simple /\ \A e \in DOMAIN j.els : j.els[e].off = 0 /\ j.els[e].pt \in {0, 2, 4}
@@ -94,7 +100,8 @@ PolyEq(a, b, tol100) ==
 PathEq(a, b) ==
     Tag("layer", BEq(a.l, b.l)) \cup Tag("datatype", BEq(a.t, b.t)) \cup Tag("repetition", RepEq(a.rep, b.rep))
     \cup Tag("properties", PropsEq(a.props, b.props)) \cup Tag("half_width", a.hw = b.hw)
-    \cup Tag("end_extensions", <<a.es, a.ee>> = <<b.es, b.ee>>) \cup Tag("spine", a.pts = b.pts)
+    \cup Tag("end_extensions", <<a.es, a.ee>> = <<b.es, b.ee>>)
+    \cup Tag("spine", SimplifyOpen(a.pts) = SimplifyOpen(b.pts))
 RefEq(a, b) ==
     Tag("cell_name", a.cell = b.cell) \cup Tag("reflection", a.refl = b.refl)
     \cup Tag("magnification", FileMag(a.mag) = FileMag(b.mag))
